@@ -284,10 +284,18 @@ class ApiGen:
             self.call(ch, k, [X(ty), X(rstr(rng)), B(rb(rng)), B(rb(rng)), B(rb(rng)), T(rtable(rng))], "exchange.declare-ok" if k == "exchange-declare" else None)
         elif k == "exchange-declare-passive":
             self.call(ch, k, [X(rstr(rng))], "exchange.declare-ok")
-        elif k in ("exchange-bind", "x-bind-to-source", "x-bind-to-destination"):
-            self.call(ch, k, [X(rstr(rng)), X(rstr(rng)), X(rstr(rng)), T(rtable(rng)), B(nw)], None if nw else "exchange.bind-ok")
-        elif k in ("exchange-unbind", "x-unbind-from-source", "x-unbind-from-destination"):
-            self.call(ch, k, [X(rstr(rng)), X(rstr(rng)), X(rstr(rng)), T(rtable(rng)), B(nw)], None if nw else "exchange.unbind-ok")
+        elif k in ("exchange-bind", "x-bind-to-source", "x-bind-to-destination", "exchange-unbind", "x-unbind-from-source", "x-unbind-from-destination"):
+            ok = "exchange.unbind-ok" if "unbind" in k else "exchange.bind-ok"
+            others = [c for c in self.chans if c != ch]
+            if k.startswith("x-") and others and rng.random() < 0.5:
+                # the two Exchange handles come from two different channels: the method belongs on the
+                # channel of the handle the call is made on
+                ch2 = rng.choice(others)
+                if not nw and not self.dead:
+                    self.ok_reply(ch, ok, wrong=rng.random() < 0.04)
+                self.op("call2 %d %d %s %s" % (ch, ch2, k, " ".join([X(rstr(rng)), X(rstr(rng)), X(rstr(rng)), T(rtable(rng)), B(nw)])))
+            else:
+                self.call(ch, k, [X(rstr(rng)), X(rstr(rng)), X(rstr(rng)), T(rtable(rng)), B(nw)], None if nw else ok)
         elif k in ("exchange-delete", "x-delete"):
             self.call(ch, k, [X(rstr(rng, k != "x-delete")), B(rb(rng)), B(nw)], None if nw else "exchange.delete-ok")
         elif k == "ack-all":
